@@ -3806,8 +3806,8 @@ DFSDIgetslice(const char *filename, int32 winst[], int32 windims[], void *data, 
 
     error = 0;
     if (rank == 1 && !convert) {
-        /* all data is contiguous with no conversions */
-        readsize = adims[0] * fileNTsize;
+        /* all data is contiguous with no conversions: read the window, not the caller's whole array */
+        readsize = wdims[0] * fileNTsize;
         if ((Hseek(aid, wstart[0] * fileNTsize, 0) == FAIL) ||
             (readsize != Hread(aid, readsize, (uint8 *)data))) {
             error = 1;
